@@ -18,6 +18,71 @@ def layout_new_type(node):
     return None
 
 
+def js_deref_rules(ck, rule, facts, enum_only=False):
+    """gen_c_to_js_deref_for_type: which reader each type kind uses when it sits in wasm memory (struct field, option/result payload),
+    and that the field offset is applied exactly once through the single-primitive-wrapper recursion.  Shared with C11 (enum arm)."""
+    tool = facts.tool
+    f = next(iter(tool.fns_matching(r"::js::converter::.*::gen_c_to_js_deref_for_type$")), None) or tool.fn("gen_c_to_js_deref_for_type")
+    body = C.fn_body(f)
+    where = C.loc(f)
+    mt = [n for n in C.walk(body) if n.get("k") == "match" and (n.get("sadt") or "").endswith("hir::types::Type")]
+    if not mt:
+        ck.bad(rule, "js::deref/anchor", "match on hir::Type not found in gen_c_to_js_deref_for_type", where)
+        return
+    want = {"Enum": ("enumDiscriminant", "enum discriminants are signed 32-bit values (Int32Array view)"),
+            "Opaque": ("ptrRead", "pointers are unsigned 32-bit values (Uint32Array view)")}
+    seen = {}
+    for arm in mt[0]["arms"]:
+        ctors = set()
+
+        def rec(p):
+            if isinstance(p, dict):
+                if p.get("v"):
+                    ctors.add(p["v"].split("::")[-1])
+                for k in ("alts",):
+                    for q in p.get(k, []) or []:
+                        rec(q)
+        rec(arm["pat"])
+        lits = " ".join(C.str_lits(arm["b"]) + [m_.get("src", "") for m_ in C.walk(arm["b"]) if m_.get("k") == "macro"])
+        for c in ctors:
+            if c in want and not arm.get("g"):
+                seen[c] = lits
+    for c, (reader, why) in want.items():
+        if enum_only and c != "Enum":
+            continue
+        lit = seen.get(c)
+        others = [r for r in ("enumDiscriminant", "ptrRead", "resultFlag", "Uint32Array", "Int32Array") if lit and r in lit and r != reader]
+        ck.expect(lit is not None and ("diplomatRuntime." + reader) in lit and not others, rule, "js::deref/%s" % c, "read with diplomatRuntime.%s" % reader,
+                  "a %s stored in wasm memory is read with `%s` instead of diplomatRuntime.%s: %s" % (c, (lit or "?")[:90], reader, why), where)
+    if enum_only:
+        return
+    # primitives: typed array chosen by fmt_primitive_slice (R4 checks that table)
+    prim_ok = False
+    for arm in mt[0]["arms"]:
+        if (arm["pat"].get("v") or "").split("::")[-1] == "Primitive":
+            prim_ok = any(x.get("k") == "mcall" and x.get("m") == "fmt_primitive_slice" for x in C.walk(arm["b"]))
+    ck.expect(prim_ok, rule, "js::deref/Primitive", "typed array from fmt_primitive_slice", "primitive fields are no longer read through the typed array chosen by fmt_primitive_slice", where)
+    # offset applied once: recursive calls pass (variable_name, offset) unchanged, or (<pointer with the offset applied>, 0)
+    params = [p_ for p_ in (f.get("params") or [])]
+    derived = set()
+    for n in C.walk(body):
+        if n.get("k") == "letst" and isinstance(n.get("pat"), dict) and n["pat"].get("k") == "bind":
+            srcs = " ".join(m_.get("src", "") for m_ in C.walk(n.get("init") or {}) if m_.get("k") == "macro")
+            if "{offset}" in srcs.replace(" ", ""):
+                derived.add(n["pat"].get("n"))
+    nrec = 0
+    for n in C.walk(body):
+        if n.get("k") == "mcall" and n.get("m") == "gen_c_to_js_deref_for_type":
+            nrec += 1
+            a = [C.strip(x) for x in n.get("a", [])]
+            names = [x.get("n") if x.get("k") == "local" else ("lit:%s" % x.get("v") if x.get("k") == "lit" else x.get("k")) for x in a]
+            ok = len(a) >= 3 and ((names[1] == "variable_name" and names[2] == "offset") or (names[1] in derived and names[2] == "lit:0"))
+            ck.expect(ok, rule, "js::deref/offset-once#%d" % nrec, "recursion passes %s" % names[1:3],
+                      "the single-primitive-wrapper recursion passes (%s, %s): the field offset is applied %s" % (names[1], names[2], "twice" if names[1] in derived else "inconsistently"), C.loc(f, n.get("ln")))
+    if nrec < 2:
+        ck.bad(rule, "js::deref/recursion-anchor", "expected 2 recursive calls for wrapper structs, found %d" % nrec, where)
+
+
 def run(ck, facts):
     tool = facts.tool
     adts = facts.all_adts()
@@ -29,6 +94,7 @@ def run(ck, facts):
     ck.rule("R3", "struct_field_info: the padding formulas are exact align-up for every (offset, align) on an exhaustive grid; the field offset is recorded after padding and before the size is added; max_align is the running maximum; final layout = (next_offset, max_align)")
     ck.rule("R4", "typed-array table used to read/write primitives has the kind and width of the wasm32 type")
     ck.rule("R5", "JS runtime reads pointers as u32, result flags as u8, enum discriminants as i32, and writes the option flag at offset + size(T)")
+    ck.rule("R7", "values read out of wasm memory use the reader of their wasm32 type (enum: signed i32, pointer: u32, primitive: typed-array table) and a field offset is applied exactly once")
     ck.rule("R6", "legacy-ABI forced padding threshold: a nested two-scalar struct is padded when the outer aggregate has more than two scalars (docs/wasm_abi_quirks.md)")
     ck.not_decided += ["struct_field_info's results for every field order (algorithm correctness beyond the formulas above)", "bytes written by _writeToArrayBuffer for all values", "flattened argument lists for all structs"]
 
@@ -266,3 +332,6 @@ def run(ck, facts):
             ok = i_lit.get("k") == "lit" and i_lit.get("v") == 2 and lo == 3 and hi is None
             detail = "(Scalars(%s), Scalars(%s..%s))" % (i_lit.get("v"), lo, "" if hi is None else hi)
         ck.expect(ok, "R6", "force-padding/threshold", detail, "padding of a nested two-scalar struct is forced for %s; the wasm legacy ABI pads every aggregate with MORE THAN TWO scalars, i.e. (Scalars(2), Scalars(3..))" % detail, C.loc(f2, arm.get("ln")))
+
+    # ---------------- R7 readers used by the deref generator
+    js_deref_rules(ck, "R7", facts)
